@@ -43,7 +43,11 @@ def uniform_keys(env: EnvA) -> set:
             continue
         if fn == "torch.full":
             plain = [a for a in v0.args[1:] if not (isinstance(a, vg.S) and a.op == "kw")]
-            if len(plain) < 2 or not vg.is_const(plain[1]):
+            # full(shape, c): one value for every row when c is a literal or a configuration attribute (self.x / self.generator.x)
+            def config_scalar(x):
+                x = nf.strip(x)
+                return vg.is_const(x) or x.op == "selfattr" or (x.op == "attr" and nf.strip(x.args[0]).op == "selfattr")
+            if len(plain) < 2 or not config_scalar(plain[1]):
                 continue
         new = st.td.cells.get(k)
         if new is None or (new.op == "cell0" and new.args[1] == k):
@@ -172,6 +176,15 @@ def classify(ctx: Ctx, h: ba.Hit, root, uni, tfuncs, exceptions, per_row):
     deps_c, deps_p = vg.cells_of(h.operand), vg.params_of(h.operand)
     if deps_c and deps_c <= uni and not deps_p and h.kind in ("reduce-all", "row-pick"):
         return "ok", f"operand is row-uniform: every write of {sorted(deps_c)} is a constant fill or key + const", fn, text, where
+    if h.kind == "rank-broadcast":
+        # [B] op [B, 1] -> [B, B] mixes rows only if BOTH operands vary across rows: when one of them is row-uniform (a constant
+        # fill such as the normalised capacity 1.0, or the common step counter) every column of the result repeats the row's own value
+        n0 = h.node
+        ops_ = [x for x in (n0.args if n0.op in ba.ELEMENTWISE else (n0.args[1:] if n0.op == "call" else [n0.args[0]] + list(n0.args[2:]))) if isinstance(x, vg.S) and not ba.is_scalarish(x)]
+        for x in ops_:
+            dc, dp = vg.cells_of(x), vg.params_of(x)
+            if dc and dc <= uni and not dp:
+                return "ok", f"one operand of the rank-mismatched broadcast is row-uniform ({sorted(dc)}): the [B, B] result repeats each row's own value", fn, text, where
     if fn in per_row:
         return "ok", per_row[fn], fn, text, where
     why = alpha_table(exceptions).get((fn, h.kind, alpha_key(text)))
